@@ -50,6 +50,36 @@ CHECKS = {
         text="Sessions of size 2 and 3 (3 makes acknowledgements matter) with node = party identifiers from {0,1,2,127,128,254,255,256,257,511,512,513,32767,32768,65279,65280,65534,65535} and PRNG identifiers elsewhere; key generation then signing with two rounds cycling through 0..127; every session must complete and hand every message over exactly once, i.e. every identifier, view, round and digest one party encoded was decoded to the same value by its peers.",
         note="Trusted: harness recorder/network. Serialisation round trips of key material (BLS/PS/EdDSA) are the crypto drivers' part (added to this check when built).",
         design="2/C13"),
+    "C01": dict(level="exploration", engine="hcrypto",
+        technique="runtime monitoring: byte-equality of public material across parties and an independent verification of every aggregated subset signature, over BLS key generations run with directly wired backends and through real Loud/Silent schemes on the simulated network (PRNG delivery policies, staggered starts)",
+        text="All 2<=t<=n<=6 (thorough 7) directly wired and <=5 (6) through the orchestrator, party identifier sets 1..n, non-contiguous and PRNG (<256, incl. 0); after each key generation fresh signers are re-created from the serialised stored data only and EVERY subset of size >= t signs five kinds of digest (empty, 1 byte, random, leading zeros, 1 KiB), aggregated in PRNG signer order and verified under the threshold key a PRNG-chosen party reports. Orchestrated signing is decided with the scripted backend (C06/C12/C13 checks) and the EdDSA adapter (C19 check): the README states that with BLS the scheme orchestrates key generation only.",
+        note="Trusted: IBM/mathlib pairing arithmetic used by the library's own Verifier (the check is the library's verification on independently re-created objects, plus byte equality). Completion judged with a watchdog and one replay at 5x.",
+        design="2/C01"),
+    "C05": dict(level="fault_enumeration", engine="hcrypto",
+        technique="runtime monitoring of BLS/PS key generations in which one participant is a real backend behind a perturbing wrapper (strategy catalogue x victim sets x (n,t) incl. t=n x delivery orders); oracles: consistent-or-error, joint signing of honest completers under the reported key, reveal-after-all-commitments from the event order, no panic/hang",
+        text="Sixteen strategies (off-polynomial share received, flipped outgoing share on x and on each y_j, altered commitment/reveal, copy of an honest party's key, malformed/duplicated/withheld share, commitment, reveal, reveal before commitment), every single honest victim and all honest parties as victims. The context is cancelled at quiescence determined from goroutine wait states (no timing guess).",
+        note="Trusted: tag-byte + body layout of share messages (guarded by a re-encoding self-check); the backends' own ClassifyMsg for message classes; equivocation of broadcast-class messages is the reliable broadcast's subject (C02) and is not repeated here.",
+        design="2/C05"),
+    "C08": dict(level="exploration", engine="hcrypto",
+        technique="runtime monitoring: the four calls of the blind-signature pipeline (TPS.Sign, UnBlind, ProveKnowledgeOfSignature, Verifier.Verify) must succeed for every generated configuration, message vector and EVERY signer subset in PRNG order; public material byte-identical",
+        text="PS key generations (directly wired; every third through real Loud/Silent schemes) for 2<=t<=n<=5 (6), identifier sets 1..n, {1,2,4,..}, {10,20,..}, PRNG 16-bit; L=1..4; vectors with empty, equal, random and 64 KiB entries.",
+        note="Trusted: the library's own verifier as oracle for completeness (soundness is C09's subject).",
+        design="2/C08"),
+    "C09": dict(level="exploration", engine="hcrypto",
+        technique="runtime monitoring with a perturbation catalogue over genuine objects: every bound component of BLS signatures, PS signing requests and PS proofs altered by one group/field unit or swapped across sessions must be rejected; same object verified/signed twice must give the same verdict; expected verdicts involving Lagrange coefficients come from an independent math/big reference",
+        text="About 560 perturbed objects per quick run over six (n,t); includes a proof forged from the public key alone (all G1 components the identity) built outside the package, with a self-check on the rejection reason that reports when the replica of the proof's random oracle no longer matches the build.",
+        note="Cryptographic soundness outside the catalogue is not decided by monitoring; a forged object verifying by chance has probability ~2^-250.",
+        design="2/C09"),
+    "C11": dict(level="fault_enumeration", engine="hcore+hcrypto",
+        technique="crash-point enumeration with an outcome oracle: every peer muted after its k-th transmission, every single transmission withheld, context cancelled at quiescence (logical time), by deadline with PRNG phase, or INSIDE a party's k-th send call; every call must return (error, or nil only with a complete/consistent session) within a watchdog, never panic",
+        text="Scripted backend through real schemes (barrier, silent, loud with real disc.Member; KeyGen and Sign; unusable stored data) and directly wired BLS/PS key generations. A hang is replayed alone with a 5x watchdog before it is reported.",
+        note="Goroutine leaks that never surface as a blocked caller are not detected. tss-lib adapters with short deadlines are added by the hbinance driver when built.",
+        design="2/C11"),
+    "C18": dict(level="exploration", engine="hcrypto",
+        technique="runtime monitoring: (i) secrets dealt with the exported SSS.Gen, shares wrapped as stored data, EVERY subset of size >= t of every (n,t) up to a bound combined through the public API and verified under g2^P(0) (subset spaces enumerated completely); (ii) key generations with exactly one off-polynomial party key (every position, BLS x / PS x and y_j): all abort for t<n, all accept for t=n and delta=0",
+        text="BLS n<=7 (9), PS n<=5 (6) for (i); BLS n<=5 (6), PS n<=4 (5) for (ii). A random evaluation decides each polynomial identity up to 2^-240, as the property says.",
+        note="Trusted: mathlib group arithmetic; exported SSS types.",
+        design="2/C18"),
 }
 
 NOT_YET = {}
@@ -96,6 +126,7 @@ def main():
         },
         "engines": [
             {"name": "hrun", "path": "/verif/harness/cmd/hrun", "serves_properties": ids, "kind_free_text": "parent process: starts child drivers per shard, survives their death, merges observations, matches known findings, writes evidence"},
+            {"name": "hcrypto", "path": "/verif/harness/cmd/hcrypto", "serves_properties": [i for i in ids if CHECKS.get(i, {}).get("engine", "").find("hcrypto") >= 0], "kind_free_text": "runtime monitors over the built-in schemes (mpc/bls, mpc/ps): directly wired key generations with PRNG delivery and goroutine-state quiescence detection, Byzantine wrappers, perturbation catalogue, crash-point enumeration"},
             {"name": "hcore", "path": "/verif/harness/cmd/hcore", "serves_properties": [i for i in ids if CHECKS.get(i, {}).get("engine", "").find("hcore") >= 0], "kind_free_text": "runtime monitors over the core packages (threshold, rbc, disc, msg, net): simulated network, scripted backend, sleep-set DFS over delivery schedules, controlled scheduler over verif yield points"},
         ],
         "checks": checks,
